@@ -31,8 +31,8 @@ ASSUMPTIONS = ["contractive / convex problem families (|s|<=0.5, |W|~0.5) so eve
                "tolerances: 1e-8 relative to the gradient scale for direct functionals, 1e-6 for iterative ones "
                "(their stopping tolerance is 1e-11)"]
 BUDGET = {"quick": {"worker_timeout": 900, "case_timeout": 180}, "thorough": {"worker_timeout": 3300, "case_timeout": 300}}
-REQUIRED_COUNTERS = {"quick": {"second_order_compared": 1500, "objparams_substitutions": 5000},
-                     "thorough": {"second_order_compared": 9000, "objparams_substitutions": 30000}}
+REQUIRED_COUNTERS = {"quick": {"history_grad2_compared": 150, "abort_reuse_compared": 40, "refreeze_stages": 100, "second_order_compared": 1500, "objparams_substitutions": 5000},
+                     "thorough": {"history_grad2_compared": 1500, "abort_reuse_compared": 400, "refreeze_stages": 1000, "second_order_compared": 9000, "objparams_substitutions": 30000}}
 
 FNAMES = list(funcs.FUNCTIONALS) + ["mcquad:mh"]
 
@@ -75,6 +75,9 @@ def cases(seed, tier):
                 out.append({"group": "rebind", "functional": fname, "rep": "rebind_" + holder, "holder": holder, "derived": True, "rg": [1, 1, 1],
                             "d": rng.choice([2, 3, 7]), "s": 0.4, "ncalls_before": rng.choice([1, 2]), "seed": sub_seed(seed, "c09s", k)})
                 k += 1
+    # histories: a sibling made once and reused after requires_grad flags changed; a failed call followed by a normal one
+    from vf import c09_extra
+    out.extend(c09_extra.cases(seed, tier))
     return out
 
 
@@ -385,6 +388,9 @@ def run_case(desc):
         return run_meta(desc)
     if desc.get("group") == "rebind":
         return run_rebind(desc)
+    if desc.get("group") == "history":
+        from vf import c09_extra
+        return c09_extra.run_case(desc)
     obs = Obs(desc)
     fname, rep, derived, d, s = desc["functional"], desc["rep"], desc["derived"], desc["d"], desc["s"]
     dtype = torch.float64
